@@ -8,7 +8,7 @@ func init() {
 	vRegister(&vCheck{
 		id: "C29", level: "model_checking", flavour: "sched", race: false, also: []string{"C29.race"},
 		shards: func(string) int { return 16 },
-		rule: "stateless model checking of the real server (source-instrumented, controlled scheduler; every backend call is a scheduling point): three client threads each send one or two requests through HandleCall over a shared tree (WRITE/WRITE/READ, WRITE/GETATTR/LOOKUP, CREATE/CREATE/READDIRPLUS, MKDIR/LOOKUP/LOOKUP, REMOVE/RENAME/READDIR, SETATTR(size)/READ/GETATTR; thorough adds LOOKUP/REMOVE+LOOKUP, LOOKUP/LOOKUP/READDIRPLUS, WRITE/SETATTR+GETATTR), once with caches at minimal TTL (clock advanced at every backend call) and once with attribute, directory and negative caches at 1 h. Every choice sequence within D-bound 2 (thorough D-bound 3, P-bound 2) is executed. Oracles per execution: no panic, no thread blocked forever, every reply decodes strictly; strict mode: the vector of primary reply results plus the final backend tree equals that of one of the serial orders (all permutations respecting per-thread order, executed on the real code); both modes: every reported size / name / lookup verdict is one the object had at some moment of the execution; after quiescence a sequential probe (GETATTR on every handle any client holds, LOOKUP of every backend name, READDIR of every directory, LOOKUP of removed names) must agree with the backend, and the handle table and its path index must be mutually consistent.",
+		rule: "stateless model checking of the real server (source-instrumented, controlled scheduler; every backend call is a scheduling point): three client threads each send one or two requests through HandleCall over a shared tree (WRITE/WRITE/READ, WRITE/GETATTR/LOOKUP, CREATE/CREATE/READDIRPLUS, MKDIR/LOOKUP/LOOKUP, REMOVE/RENAME/READDIR, SETATTR(size)/READ/GETATTR; thorough adds LOOKUP/REMOVE+LOOKUP, LOOKUP/LOOKUP/READDIRPLUS, CREATE/CREATE of one name/LOOKUP, MKDIR/MKDIR of one name/REMOVE, WRITE/SETATTR+GETATTR), once with caches at minimal TTL (clock advanced at every backend call) and once with attribute, directory and negative caches at 1 h. Every choice sequence within D-bound 2 (thorough D-bound 3, P-bound 2) is executed. Oracles per execution: no panic, no thread blocked forever, every reply decodes strictly; strict mode: the vector of primary reply results plus the final backend tree equals that of one of the serial orders (all permutations respecting per-thread order, executed on the real code); both modes: every reported size / name / lookup verdict is one the object had at some moment of the execution; after quiescence a sequential probe (GETATTR on every handle any client holds, LOOKUP of every backend name, READDIR of every directory, LOOKUP of removed names) must agree with the backend, and the handle table and its path index must be mutually consistent.",
 		assumptions: []string{"scheduling points are the synchronisation operations of the instrumented package plus every backend call; plain memory accesses between them are atomic steps (data races proper are the business of the free-running -race companion)",
 			"post-operation attributes (wcc_data, post_op_attr of WRITE/SETATTR/READ) are advisory per RFC 1813 and are held to the weak clause only, not to the serial-equality clause"},
 		run:    func(c *vCtx) { vSchedRun(c, "C29", c29Scenarios(c.thorough())) },
